@@ -16,7 +16,7 @@ from vf.core import HarnessError, Tally
 
 LEVEL = "exploration"
 
-DT_OFFS = ["", "[0]", "[-5:EST]", "[+5.30]", "[-0.30]", "[+14]", "[-12]", "[-3.30:NST]", "[9.30]", "[-9.30:Any Name]", "[+05.45]"]
+DT_OFFS = ["", "[0]", "[-5:EST]", "[+5.30]", "[-0.30]", "[+0.30]", "[0.30]", "[-0.45]", "[+14]", "[-12]", "[-3.30:NST]", "[9.30]", "[-9.30:Any Name]", "[+05.45]", "[5]", "[-5.00]"]
 
 
 def lexical_forms(c, quick, seed):
@@ -71,12 +71,27 @@ def lexical_forms(c, quick, seed):
     return out
 
 
+def cdata_bytes(sterm):
+    """v2 file in which every data element whose data allows it is CDATA-wrapped (several sections per document)"""
+    from vf import ref_header as H
+
+    toks, nleaves = ref_sgml.tokens(sterm)
+    data = {leaf: v for k, v, leaf in toks if k == "D"}
+    lo = {leaf: (False, True) for leaf in range(nleaves) if ref_sgml.can_cdata(data[leaf]) and "<" not in data[leaf] and ">" not in data[leaf]}
+    return (H.render_v2(H.v2_fields(203)) + ref_sgml.render(sterm, lo, None)).encode("utf_8"), len(lo)
+
+
 def run_doc(t, term, override, sig_prefix, case, forms=("xml", "sgml")):
     sterm = wire.doc(term, override)
     exp = wire.flatten_expected(term, override)
     for form in forms:
         t.count("evaluations")
-        data = wire.to_bytes(sterm, form)
+        if form == "cdata":
+            data, nsec = cdata_bytes(sterm)
+            if nsec == 0:
+                continue
+        else:
+            data = wire.to_bytes(sterm, form)
         try:
             with warnings.catch_warnings(record=True) as w:
                 warnings.simplefilter("always")
@@ -143,7 +158,7 @@ def work(chunk):
                 t.count("lexical-forms")
         # the MAXS document: all children at once
         try:
-            run_doc(t, U.MAXS(cls), None, f"C03|{clsname}|MAXS", {"cls": clsname, "child": None, "text": None})
+            run_doc(t, U.MAXS(cls), None, f"C03|{clsname}|MAXS", {"cls": clsname, "child": None, "text": None}, forms=("xml", "sgml", "cdata"))
         except Exception as e:
             t.fail(f"C03|{clsname}|MAXS|harness", {"cls": clsname}, repr(e))
         t.count("classes")
@@ -179,7 +194,7 @@ def run(ctx):
         "Decimal 12 forms incl. comma separator, signs, bare separator sides; String 15 forms incl. each entity alone, doubly escaped entities, non-ASCII, the limit; "
         + ("OneOf first, last and every 7th token; " if ctx.quick else "OneOf every token; ") +
         "DateTime/Time 3 plain notations + {full, offset-without-ms} x 10 offsets - in the smallest document containing the element, rendered as v2 XML and v1 SGML "
-        "(end tags omitted) by the reference renderer; + the MAXS document of every class; distinct_nontrivial = (element, lexical form) pairs",
+        "(end tags omitted) by the reference renderer; + the MAXS document of every class (also with every eligible data element CDATA-wrapped); distinct_nontrivial = (element, lexical form) pairs",
         "elements": tally.counts["elements"],
         "classes": tally.counts["classes"],
         "exhaustive": True,
